@@ -652,9 +652,14 @@ class Visitor:
         Parameters:
             node: The node to visit.
         """
+        previously_guarded = self.type_guarded
         if isinstance(node.parent, (ast.Module, ast.ClassDef)):  # type: ignore[attr-defined]
             condition = safe_get_condition(node.test, parent=self.current, log_level=None)
             if str(condition) in {"typing.TYPE_CHECKING", "TYPE_CHECKING"}:
                 self.type_guarded = True
-        self.generic_visit(node)
-        self.type_guarded = False
+        for child in ast_children(node):
+            if child in node.orelse:
+                # The `else` branch is not guarded by the condition.
+                self.type_guarded = previously_guarded
+            self.visit(child)
+        self.type_guarded = previously_guarded
